@@ -137,7 +137,7 @@ impl Monitor for C18 {
     }
     fn plan(&self, cfg: &Cfg) -> u64 {
         let (a, b, c) = plan_sizes(cfg);
-        a + b + c
+        a + b + c + all_unary(3).len() as u64
     }
     fn trial(&self, cfg: &Cfg, idx: u64, out: &mut TrialOut) {
         let (a, b, _c) = plan_sizes(cfg);
@@ -145,6 +145,17 @@ impl Monitor for C18 {
         let nn = nlist.len() as u64;
         let mut rng = Rng::for_trial(cfg.seed, "C18", idx);
         let base_l = cfg.tier.pick(4096usize, 16384);
+        if idx >= a + b + _c {
+            // every kind once at a window of 2 or 3 with L = 2^22: live bytes after 4.2, 16.8 and 67.1
+            // million updates (a counter that triggers something every 2^24 updates, or a buffer that
+            // gains one element per few million updates, shows only there)
+            let j = idx - a - b - _c;
+            let n = 2 + (j % 2) as usize;
+            let k = catalogue::bump_n(all_unary(n)[j as usize % all_unary(3).len()], n);
+            out.count("runs_of_67_million_updates", 1);
+            measure(&Spec::leaf(k), 1 << 22, rng.next(), out, &format!("view/{}", k.name()));
+            return;
+        }
         if idx < a {
             let n = nlist[(idx % nn) as usize];
             let k = catalogue::bump_n(all_unary(n)[((idx / nn) % all_unary(3).len() as u64) as usize], n);
@@ -218,7 +229,7 @@ impl Monitor for C18 {
         names
     }
     fn rule(&self) -> String {
-        "trial = one view (every kind x N grid), PFE/EFT with each moving average, or a random 2-3 level chain / combinator (a third of them with a component that never becomes ready: as inner view, as moving average, as one child of a combinator), driven by one of nine input modes (noise, constant, three levels, long flat stretches, saw-tooth, ever-rising ramp, ever-falling ramp, random walk at a high level, noisy up-trend); the harness' counting global allocator meters the bytes the instance owns after L, 4L and 16L updates (L >= 4096 and >= 8 windows; long runs to 16L = 4e6 in thorough); violation iff bytes(4L) > bytes(L) or bytes(16L) > bytes(L) (exact integer comparison). distinct = distinct (tree, L); non-trivial = both comparisons made".into()
+        "trial = one view (every kind x N grid), PFE/EFT with each moving average, or a random 2-3 level chain / combinator (a third of them with a component that never becomes ready: as inner view, as moving average, as one child of a combinator), driven by one of nine input modes (noise, constant, three levels, long flat stretches, saw-tooth, ever-rising ramp, ever-falling ramp, random walk at a high level, noisy up-trend); the harness' counting global allocator meters the bytes the instance owns after L, 4L and 16L updates (L >= 4096 and >= 8 windows; long runs to 16L = 4e6, and every kind once at a window of 2 or 3 with L = 2^22, i.e. to 16L = 6.7e7); violation iff bytes(4L) > bytes(L) or bytes(16L) > bytes(L) (exact integer comparison). distinct = distinct (tree, L); non-trivial = both comparisons made".into()
     }
     fn assumptions(&self) -> Vec<String> {
         vec![
